@@ -50,6 +50,12 @@ class Infra(Exception):
     """infrastructure failure: exit 2, never a VIOLATION"""
 
 
+class ProgramAbort(Exception):
+    """the implementation under test failed on an input the harness built as valid (a program run that must succeed aborted,
+    a recorder could not bind a call): not a failure of the machinery - the supervisor reports a broken correspondence
+    (exit 1, VIOLATION ... no-failing-input-found, the message in the replay)"""
+
+
 # --------------------------------------------------------------------------------------
 # seed / tier
 # --------------------------------------------------------------------------------------
